@@ -723,6 +723,7 @@ class Cache:
         _disk_remove = self._disk.remove
         tid = threading.get_ident()
         txn_id = self._txn_id
+        local = self._local
 
         if tid == txn_id:
             begin = False
@@ -732,6 +733,8 @@ class Cache:
                     sql('BEGIN IMMEDIATE')
                     begin = True
                     self._txn_id = tid
+                    local.removes = []  # Files to remove once committed.
+                    local.writes = []  # Files written in the transaction.
                     break
                 except sqlite3.OperationalError:
                     if retry:
@@ -740,6 +743,9 @@ class Cache:
                         _disk_remove(filename)
                     raise Timeout from None
 
+        if filename is not None:
+            local.writes.append(filename)
+
         try:
             yield sql, filenames.append
         except BaseException:
@@ -747,18 +753,30 @@ class Cache:
                 assert self._txn_id == tid
                 self._txn_id = None
                 sql('ROLLBACK')
-                if filename is not None:
-                    # The row for the freshly written file was rolled back.
-                    _disk_remove(filename)
+                # The rows for files written in the transaction (including
+                # nested ones) were rolled back.
+                for name in local.writes:
+                    _disk_remove(name)
             raise
         else:
+            # Replaced files are removed when the outermost transaction
+            # commits: until then a rollback may bring their rows back.
+            local.removes.extend(filenames)
             if begin:
                 assert self._txn_id == tid
                 self._txn_id = None
                 sql('COMMIT')
-            for name in filenames:
-                if name is not None:
-                    _disk_remove(name)
+                for name in local.removes:
+                    if name is not None:
+                        _disk_remove(name)
+
+    def _remove_committed(self, filename):
+        """Remove value file of a deleted row, now or, inside a transaction,
+        when the outermost transaction commits."""
+        if self._txn_id == threading.get_ident():
+            self._local.removes.append(filename)
+        else:
+            self._disk.remove(filename)
 
     def set(self, key, value, expire=None, read=False, tag=None, retry=False):
         """Set `key` and `value` item in cache.
@@ -1348,7 +1366,7 @@ class Cache:
             return default
         finally:
             if filename is not None:
-                self._disk.remove(filename)
+                self._remove_committed(filename)
 
         if expire_time and tag:
             return value, db_expire_time, db_tag
@@ -1621,7 +1639,7 @@ class Cache:
                 continue
             finally:
                 if name is not None:
-                    self._disk.remove(name)
+                    self._remove_committed(name)
             break
 
         if expire_time and tag:
